@@ -157,6 +157,37 @@ func lazyInitFields(fns []*ssa.Function) map[string]bool {
 	return out
 }
 
+// lazyInitStores returns the individual store instructions that are guarded by
+// `x.F == nil` on the very field they assign.
+func lazyInitStores(fns []*ssa.Function) map[ssa.Instruction]bool {
+	out := map[ssa.Instruction]bool{}
+	for _, fn := range fns {
+		eachInstr(fn, func(i ssa.Instruction) {
+			st, ok := i.(*ssa.Store)
+			if !ok {
+				return
+			}
+			fa, ok := st.Addr.(*ssa.FieldAddr)
+			if !ok {
+				return
+			}
+			for _, f := range factsAt(st.Block()) {
+				bo, ok := f.Cond.(*ssa.BinOp)
+				if !ok || !f.Val || bo.Op != token.EQL {
+					continue
+				}
+				if k, ok := bo.Y.(*ssa.Const); !ok || k.Value != nil {
+					continue
+				}
+				if ld, ok := isLoad(bo.X); ok && path(ld.X) == path(fa) {
+					out[st] = true
+				}
+			}
+		})
+	}
+	return out
+}
+
 // evalCodeChain decides, for a concrete integer value v of the subject, whether
 // control starting at block `start` reaches block `target`, interpreting only
 // branch conditions that compare the subject with integer constants (including
